@@ -799,7 +799,89 @@ def c08(W, replay=None):
 
 
 # ---------------------------------------------------------------------------------------------
-REGISTRY = {"C01": c01, "C02": c02, "C03": c03, "C04": c04, "C05": c05, "C07": c07, "C08": c08, "C09": c09, "C10": c10, "C11": c11, "C12": c12, "C13": c13, "C14": c14, "C15": c15, "C18": c18}
+# C17 configuration loading (ConfigOps / ConfigGen / ConfigTrace)
+
+
+def fixture_mutations(W, n):
+    """Mutations of the shipped test fixtures: only 'never panics' is judged for these (their abstract document is unknown)."""
+    import glob as _g
+    rnd = random.Random(W.seed * 911 + 5)
+    res = []
+    files = sorted(_g.glob("/repo/internal/testdata/*.json")) + sorted(_g.glob("/repo/internal/k8s/testdata/*.json"))
+    docs = []
+    for f in files:
+        try:
+            docs.append((os.path.basename(f), json.load(open(f))))
+        except Exception:
+            pass
+
+    def paths(o, pre=()):
+        yield pre
+        if isinstance(o, dict):
+            for k, v in o.items():
+                yield from paths(v, pre + (k,))
+        elif isinstance(o, list):
+            for i, v in enumerate(o):
+                yield from paths(v, pre + (i,))
+
+    def mutate(doc):
+        d = json.loads(json.dumps(doc))
+        ps = [p for p in paths(d) if p]
+        p = rnd.choice(ps)
+        parent = d
+        for k in p[:-1]:
+            parent = parent[k]
+        r = rnd.random()
+        if r < 0.25:
+            del parent[p[-1]]
+        elif r < 0.45:
+            parent[p[-1]] = rnd.choice([{}, [], "", None, 0, True, "x", {"oidc": {}}, [{}], {"header": ""}, -1, 1e30])
+        elif r < 0.6 and isinstance(parent[p[-1]], list):
+            parent[p[-1]] = parent[p[-1]] + parent[p[-1]]
+        elif r < 0.75 and isinstance(parent[p[-1]], dict):
+            parent[p[-1]] = {}
+        elif r < 0.9 and isinstance(parent[p[-1]], str):
+            parent[p[-1]] = rnd.choice(["/", "", ":", "http://[::1", "a:b", parent[p[-1]] + "/", "tcp://x:1"])
+        else:
+            parent[p[-1]] = [parent[p[-1]]]
+        return d
+    for i in range(n):
+        name, doc = rnd.choice(docs)
+        m = doc
+        for _ in range(rnd.randint(1, 3)):
+            try:
+                m = mutate(m)
+            except Exception:
+                pass
+        res.append({"id": "fixture/%s/%d" % (name, i), "raw": json.dumps(m)})
+    return res
+
+
+def c17(W, replay=None):
+    W.build()
+    cases = []
+    if not replay:
+        cfg = 'SPECIFICATION Spec\nCONSTANTS\n  Tier = "%s"\nINVARIANT Emit\nCHECK_DEADLOCK FALSE\n' % W.tier
+        out, viol = W.tlc_exhaustive("ConfigGen", cfg, "gen-C17", workers=4, timeout=3000)
+        cases = W.scenarios_from(out)
+        for i, c in enumerate(cases):
+            c["id"] = "c17/%d" % i
+        log("[gen] C17: %d documents enumerated by TLC" % len(cases))
+        cases += fixture_mutations(W, 5000 if W.tier == "thorough" else 600)
+    else:
+        cases = [json.loads(l) for l in open(os.path.join(replay, "scenario.ndjson")) if l.strip()]
+    index = {c["id"]: c for c in cases}
+    trace = W.drive("TestConfig", cases, "config")
+    v = W.validate(trace, "config", module="ConfigTrace")
+    if v["fired"].get("scenarios", 0) != len(cases):
+        raise Infra("ConfigTrace judged %s documents, driver loaded %d" % (v["fired"].get("scenarios"), len(cases)))
+    return judge("C17", W, [v], index, traces=len(cases), samples=[{"case": cases[0], "recorded_events": sample_events_at(trace, 1)}],
+                 assumptions=["the loader may reject more than the statement requires; that is never an alarm",
+                              "mutated fixtures are judged for 'never panics' only (their abstract document is not known to the specification)"])
+
+
+# ---------------------------------------------------------------------------------------------
+REGISTRY = {"C01": c01, "C02": c02, "C03": c03, "C04": c04, "C05": c05, "C07": c07, "C08": c08, "C09": c09, "C10": c10, "C11": c11, "C12": c12, "C13": c13, "C14": c14, "C15": c15, "C17": c17, "C18": c18}
 
 
 def run(prop, W, replay=None):
